@@ -17,6 +17,8 @@ mod c13;
 mod c20;
 mod c06;
 mod memsrc;
+mod tsrc;
+mod c02;
 mod indep_formats;
 mod c16;
 mod c01;
@@ -53,6 +55,7 @@ fn main() {
 		"C06" => c06::run(&args),
 		"C16" => c16::run(&args),
 		"C01" => c01::run(&args),
+		"C02" => c02::run(&args),
 		_ => {
 			eprintln!("unknown property {prop}");
 			std::process::exit(2);
